@@ -9,14 +9,17 @@ SPEC = dict(
     id="C27", level="proof",
     lean_targets=["SwayVerif.Props.C27"], audit="SwayVerif/Audit/C27.lean",
     theorems=THEOREMS,
-    steps=[dict(bin="sv_c27", area="c27", n_quick=480, n_thorough=4500, corpus="corpus/c27.txt",
-                args=["--per-pkg", "160", "--jobs", "3"], timeout=2400,
+    steps=[dict(bin="sv_c27", area="c27", n_quick=1000, n_thorough=6000, corpus="corpus/c27.txt",
+                args=["--per-pkg", "340", "--jobs", "3"], timeout=2400,
                 dist_keys=("op", "mode", "spec", "out", "kind", "size"),
                 nontrivial=lambda case, impl, kv: kv.get("spec", "value") != "unspecified")],
     rule="generated forc unit tests run on the real FuelVM against /repo/sway-lib-std: (a) one numeric std operation "
          "per test (add/sub/mul/div/mod, wrapping_*, pow, sqrt, log, log2, shifts, comparisons, overflowing_*, "
          "try_from/try_as_*) on u8..u64, U128, u256 with boundary-biased operands (0, 1, max, max-1, 2^k, 2^k+-1, "
-         "perfect squares +-1, base^k +-1, exponents at the overflow edge), operands read through #[inline(never)]+asm so "
+         "perfect squares +-1, base^k +-1, exponents at the overflow edge; for U128/u256 binary ops 40% of the cases come from a "
+         "limb-pattern family: every 64-bit limb from {0,1,2,2^63-1,2^63,2^63+1,MAX-1,MAX,random} and the partner limb chosen so the "
+         "per-limb sum/difference/product is far from, exactly at (MAX / 2^64) or beyond the limb boundary, independently per limb "
+         "position (carry in low only / high only / both / carry chain); a systematic 142-line corpus block of such pairs runs first), operands read through #[inline(never)]+asm so "
          "nothing is constant-folded, under the four combinations of the F_WRAPPING/F_UNSAFEMATH flags (3/4 default); "
          "(b) random operation sequences (<= 21 ops, indices biased to len-1/len/len+1) on Vec<u64>, Bytes, String, "
          "every observable logged. agree = transcription (StdNum/StdVec over M-Word) equals the VM result incl. revert "
